@@ -107,6 +107,7 @@ type rowEnv struct {
 	aggregating bool
 	groupKeys   map[string]bool // ExprString of GROUP BY expressions
 	inAgg       bool
+	lookupFn    func(parts []string) (prim.Value, bool)
 	opt         Options
 }
 
@@ -148,6 +149,12 @@ func (e *rowEnv) aliasLookup(name string) (prim.Value, bool) {
 }
 
 func (e *rowEnv) lookup(parts []string) prim.Value {
+	if e.lookupFn != nil {
+		if v, ok := e.lookupFn(parts); ok {
+			return v
+		}
+		fail("unknown column %q", strings.Join(parts, "."))
+	}
 	if len(parts) == 1 {
 		name := parts[0]
 		if e.aliasFirst {
@@ -434,7 +441,7 @@ func evalAgg(name string, c *Call, e *rowEnv) prim.Value {
 	var vals []prim.Value
 	n := int64(0)
 	for _, r := range e.group {
-		sub := &rowEnv{cols: e.cols, row: r, opt: e.opt, inAgg: true}
+		sub := &rowEnv{cols: e.cols, row: r, opt: e.opt, inAgg: true, lookupFn: e.lookupFn}
 		if c.Filter != nil {
 			f := evalExpr(c.Filter, sub)
 			if prim.IsPoison(f) {
@@ -732,4 +739,22 @@ func EvalScalar(x Expr, cols []string, row []prim.Value, params map[string]prim.
 		}
 	}
 	return evalExpr(x, &rowEnv{cols: cs, row: row, opt: Options{Params: params}}), nil
+}
+
+// EvalScalarFn evaluates a scalar expression whose column references are
+// resolved by lookup (all parts of the reference are passed). Aggregates see a
+// group consisting of this single row, so an expression taken from a
+// summarize position can be evaluated row-wise.
+func EvalScalarFn(x Expr, lookup func(parts []string) (prim.Value, bool), params map[string]prim.Value) (v prim.Value, err error) {
+	defer func() {
+		if r := recover(); r != nil {
+			if ee, ok := r.(*EvalError); ok {
+				err = ee
+				return
+			}
+			panic(r)
+		}
+	}()
+	e := &rowEnv{lookupFn: lookup, opt: Options{Params: params}, group: [][]prim.Value{nil}}
+	return evalExpr(x, e), nil
 }
